@@ -100,3 +100,30 @@ var round12Explanations = map[string]string{
 	"C19": " (R14) as C12.R7: every configured virtual host is appended in configuration order and the index recorded for its domains is its configuration position.",
 	"C20": " (R8) every result of redactRawJSON is its parameter, a constant or the output of json.Marshal.",
 }
+
+var round13Explanations = map[string]string{
+	"C01": " (R18) in every Clone of an xprotocol frame type a non-nil store into the copy's rawData is guarded by r.rawData != nil. (R19) both tars encoders return the non-nil result of a call that takes the frame's rawData, and that call dominates every WriteTo. (R13, http2) the server side does not set the query variable under RawQuery != \"\" alone; URL.ForceQuery of the client side derives from the error of the variable lookup.",
+	"C03": " (R17) every return of processError under directResponse diverts the phases or returns a nil error. (R18) no path from the exit of the counted phase loop of OnReceive to the end of the task avoids receive / cleanStream (phase == End and foreign-id edges excluded); after a receive outside the loop a non-End result reaches cleanStream. (R5) the default global timeout is guarded by a test that holds for every value <= 0.",
+	"C04": " (R16) the error edge of every Compile call in pkg/router leaves the function with nil / an error and never reaches the loop header again; the result of parseConfigToDslExpression is stored only on its non-nil edge.",
+	"C06": " (R9) every value flowing into the returned weight total is a 64-bit integer, the draw range is a 64-bit field and the draw is dominated by total != 0.",
+	"C10": " (PAIR, http2 idiom) the close-site call of deleteActiveClient is under activeClient == the closing client, where the helper clears that slot; a go-away flag as that guard is refused.",
+	"C12": " (R16) every lc field handed to a Set* method of the live listener or stored into an activeListener field in AddOrUpdateListener is also stored into the same field of listener.Config().",
+	"C13": " (R20) clientContextManager.Enabled calls no Ready(); tls.Client is called only under Ready() and the not-ready edge returns (nil, error). (R21) the error edge of NewTLSClientContextManager in UpdateTLSManager reaches tlsMng.Store on every path. (R22) GenerateHashValue loads InsecureSkipVerify, RootCAs, ServerName and VerifyPeerCertificate.",
+	"C15": " (R17) convertTypesStruct and the envoy.lb arm of convertMeta store GetStringValue results; every other store of convertMeta is guarded by key != \"envoy.lb\".",
+	"C16": " (R6) no path that is feasible for the boolean locals leads from the atomic add on checkID back to it without HandleSuccess / HandleFailure.",
+	"C17": " (R12, corrected table) the response status is consulted only when there is no reset reason. (R17) also for rule types whose Match uses a regexp method.",
+	"C18": " (W18) the default arm of the frame type switch in both HandleFrame functions merges into the function's error with a nil constant.",
+}
+
+var round14Explanations = map[string]string{
+	"C01": " (R20) no fasthttp.Request.Read / ReadLimitBody / MultipartForm call in pkg/stream/http and every ContinueReadBody gets preParseMultipartForm=false. (R21) the dubbothrift encoder's WriteByte argument derives from frame.Version and the decoder stores that field.",
+	"C02": " (R20) Dispatch's retire branch is under atomic.Load(&conn.F) == 0; endStream stores 1 to F before doSend; serve stores 0 to F between Response.Read and handleResponse. (R21) as C09.R9.",
+	"C07": " (AUTO) SelectStreamFactoryProtocol has no range over a map; RegisterProtocolStreamFactory appends the name to a package-level list.",
+	"C09": " (R11) Shutdown stores true into a pool field; no re-pool site of onStreamDestroy / activeClientPingPong.Close is reachable with that flag set and the client open, or with the flag untested. (R9) form (b) removed.",
+	"C11": " (O21) no IsLoopback call in StartService / ParseListenerConfig; the take of an inherited listener in StartService is under Port == Port and a call comparing two net.IP; ResolveTCPAddr of an inherited address is under l.(*net.TCPListener).",
+	"C12": " (R17) in UpdateCluster and UpdateHosts a Lock of a manager mutex dominates every clustersMap.Load and is released by a deferred Unlock, the same mutex in both; Append/Remove/UpdateClusterHosts reach UpdateHosts.",
+	"C13": " (R23) no store of false into Status in convertTLS dominated by a read of CertChain / PrivateKey. (R24) the serverName map update of buildMatch is under serverName != \"\".",
+	"C14": " (R13) every onUpstreamReset call in processError is on the false edge of directResponse; the direct-response branch stores false into upstreamRequest.setupRetry.",
+	"C19": " (R15) the path written in the directory-mode loops derives from a package function that looks up and adds to a map allocated outside the loop.",
+	"C20": " (R9) redactRawJSON returns its parameter only under a decode error or on the false edge of a package function that reads the parameter with json.Decoder.Token.",
+}
